@@ -308,11 +308,11 @@ func TestDuplicates(t *testing.T) {
 		dups := 0
 		for i := 0; i < n; i++ {
 			p := mt.GetPathByIndex(i)
-			if !util.VerifyMerklePath(ls[i], p, root) {
-				rt.Fatalf("index path %d does not verify", i)
+			if !util.VerifyMerklePath(ls[i], p, root) || !mt.VerifyPath(hs[i], p) || !refVerify(ls[i], p.Nodes, i, root) {
+				rt.Fatalf("index path %d does not verify (function, tree method or reference verifier)", i)
 			}
 			p2 := mt.GetPath(hs[i])
-			if !util.VerifyMerklePath(ls[i], p2, root) {
+			if !util.VerifyMerklePath(ls[i], p2, root) || !mt.VerifyPath(hs[i], p2) {
 				rt.Fatalf("lookup path %d does not verify", i)
 			}
 			if p2.LeafIndex != i {
